@@ -26,7 +26,9 @@ CFG = {
     "rule": "fixed part: toml::Table order probe; every C05 build-result subset through tbp (detect x 4 behaviours, build x 18 behaviours x 2 pre-existing states); "
             "directed layer histories (cached/uncached request, metadata with several keys, env in all scopes with 3-6 process types, 3-6 exec.d programs, "
             "SBOMs in all formats, restore, second request with every restored-layer action; the same through the trait API's handle_layer with each "
-            "existing-layer strategy). Then seeded sampling: layer histories (<=14 ops quick / <=30 thorough over 3 layer names, struct and trait ops mixed), "
+            "existing-layer strategy). Class dupenv (24 quick / 160 thorough): a hand-prepared layer whose env, env.build, env.launch or env.launch/<process> directory holds both "
+            "VAR (suffix-less = override) and VAR.override with different contents for 2-4 variables in 1-4 directories, optionally restored, then read and written "
+            "again through LayerRef::read_env + write_env, trait-API Keep, or MetadataMigration::ReplaceMetadata followed by Keep (typed metadata). Then seeded sampling: layer histories (<=14 ops quick / <=30 thorough over 3 layer names, struct and trait ops mixed), "
             "data-driven buildpack runs as detect (provides/requires/or with multi-key metadata) and build (layers via both APIs, launch.toml with several "
             "processes/labels/slices, store with nested multi-key metadata, build and launch SBOMs, pre-existing store). Each scenario = 4 fresh processes "
             "(10 when a single case is replayed: corpus, shrinking, --replay; own temp root each; std's hash seed differs per process), runs 2-4 compared with run 1 line by line over exit status, step results and a raw "
@@ -38,6 +40,7 @@ CFG = {
     "assumptions": COMMON_ASSUME + [
         "std's HashMap iteration order is a permutation of the entries (each key once); keys of a map are distinct",
         "the toml serializer and std::fs are deterministic functions of their arguments (sampled: 4 processes per scenario)",
+        "read_dir order is the same in every process for identical inputs on one file system (ext4 here; sampled by the dupenv class: which of two files designating one variable wins)",
         "a hash-order leak over >=3 keys shows in at least one of 3 pairs with probability >= 0.99",
     ],
 }
